@@ -170,6 +170,7 @@ func cmdCheck(args []string) int {
 	known := fs.String("known", "/verif/known_findings.txt", "")
 	replayDir := fs.String("replays", "/verif/replays", "")
 	secsFlag := fs.Int("timeout", 0, "per-obligation timeout (s)")
+	alsoTags := fs.String("also", "", "comma-separated extra contract tags whose obligations are included in this property's run (e.g. slow proofs kept out of the quick tier)")
 	verbose := fs.Bool("v", false, "")
 	fs.Parse(args)
 	t0 := time.Now()
@@ -223,13 +224,20 @@ func cmdCheck(args []string) int {
 		os.MkdirAll(scratch, 0o755)
 	}
 	var obls []*Obligation
+	var deferred []string // obligations marked thorough-only, not discharged in this (quick) run
 	var genErrs []string
 	var funcs []map[string]any
 	assumptions := map[string]bool{}
 	trustedUsed := map[string]bool{}
 	for _, c := range P.Ordered {
 		alsoOnly := false
-		if !hasProp(c.Props, *prop) {
+		extra := false
+		for _, t := range strings.Split(*alsoTags, ",") {
+			if t != "" && hasProp(c.Props, t) {
+				extra = true
+			}
+		}
+		if !hasProp(c.Props, *prop) && !extra {
 			if len(c.Also[*prop]) == 0 {
 				continue
 			}
@@ -273,6 +281,18 @@ func cmdCheck(args []string) int {
 					}
 				}
 				if !keep {
+					continue
+				}
+			}
+			if *tier != "thorough" && o.Expect == "unsat" {
+				skip := false
+				for _, l := range c.ThoroughOnly {
+					if strings.HasSuffix(o.Name, "/"+l) || strings.Contains(o.Name, "/"+l+"@") || strings.Contains(o.Name, "/"+l+"#") {
+						skip = true
+					}
+				}
+				if skip {
+					deferred = append(deferred, o.Name)
 					continue
 				}
 			}
@@ -413,6 +433,9 @@ func cmdCheck(args []string) int {
 		fmt.Println(l)
 	}
 	if *evPath != "" {
+		if len(deferred) > 0 {
+			assumptions["quick tier: "+strconv.Itoa(len(deferred))+" slow obligations are discharged only by the thorough tier (listed under coverage.deferred_to_thorough_tier); the quick tier assumes them"] = true
+		}
 		var as []string
 		for a := range assumptions {
 			as = append(as, a)
@@ -448,6 +471,27 @@ func cmdCheck(args []string) int {
 			"timeout_s":                secs,
 			"unsat_confirmed_by_second_solver": confirmed,
 			"integer_semantics":        "per function: mode int = mathematical integers with machine ranges assumed on inputs/loads and exact wrap-around for unsigned + - *; mode bv = exact 64-bit vectors",
+		}
+		{
+			// the ten slowest discharged obligations (robustness margin against the per-obligation time limit)
+			var os2 []*Obligation
+			for _, o := range obls {
+				if o.Expect == "unsat" && o.Result == "unsat" {
+					os2 = append(os2, o)
+				}
+			}
+			sort.Slice(os2, func(i, j int) bool { return os2[i].Secs > os2[j].Secs })
+			var slow []map[string]any
+			for i, o := range os2 {
+				if i >= 10 {
+					break
+				}
+				slow = append(slow, map[string]any{"name": o.Name, "secs": o.Secs, "solver": o.Solver})
+			}
+			ev.Coverage["slowest_obligations"] = slow
+		}
+		if len(deferred) > 0 {
+			ev.Coverage["deferred_to_thorough_tier"] = deferred
 		}
 		if len(knownMatched) > 0 {
 			ev.Coverage["note"] = "obligations listed under known_findings failed as recorded in /verif/known_findings.txt and are not counted as discharged"
